@@ -37,13 +37,21 @@ def runC {A : Arith} (h : SM) (pattern : Option (List Bool)) (outLen : Nat) :
          showRet (decodeWith (fun _ _ => some v) none outLen l n) :: runC h pattern outLen st' rest)
     | _ => ["abort"]
 
+/-- a puncturing pattern as the property means it, stated independently of the model's parser: empty (no puncturing),
+or comma-separated items each of which is exactly the character `0` or `1` -/
+def wellFormedPattern (p : List Char) : Bool :=
+  p.isEmpty || ((String.ofList p).splitOn ",").all (fun t => t == "0" || t == "1")
+
 def handle (inp out : List String) : String :=
   match inp with
   | ["dctor", a, i, p] =>
     match C08.decodeText a, C08.decodeText i, C08.decodeText p with
     | some a, some i, some p =>
       let m := if (decoderCtor a i p).isSome then "ok" else "null"
-      verdict [m] out (if out = ["abort"] then some "constructor-aborts-the-process" else none)
+      verdict [m] out (if out = ["abort"] then some "constructor-aborts-the-process"
+                       else if out = ["ok"] ∧ !wellFormedPattern p then some "constructor-accepts-a-malformed-puncturing-pattern"
+                       else if out = ["ok"] ∧ (Factory.parse (String.ofList i)).isNone then some "constructor-accepts-an-unknown-implementation-name"
+                       else none)
     | _, _, _ => "BADLINE c19 dctor"
   | ["ector", a, p] =>
     match C08.decodeText a, C08.decodeText p with
@@ -51,7 +59,8 @@ def handle (inp out : List String) : String :=
       let m := match encoderCtor a p with
         | .ok (some _) => "ok" | .ok none => "null" | _ => "abort"
       -- an alist with more rows than columns makes Encoder::from_h panic: outside the stated constructor contract
-      verdict [m] out (if out = ["abort"] ∧ m ≠ "abort" then some "constructor-aborts-the-process" else none)
+      verdict [m] out (if out = ["abort"] ∧ m ≠ "abort" then some "constructor-aborts-the-process"
+                       else if out = ["ok"] ∧ !wellFormedPattern p then some "constructor-accepts-a-malformed-puncturing-pattern" else none)
     | _, _ => "BADLINE c19 ector"
   | ["nofile", _] =>
     -- the model has no file system: an unreadable alist file must give a null handle from both constructors
